@@ -244,49 +244,81 @@ def generate():
     w("")
     w("Inductive cmp_op := CmpGt | CmpGe | CmpLt | CmpLe | CmpEq | CmpNe.")
     w("")
-    # 1. error tables
-    enums = [
-        ("preparation_error_variants", "air/src/preparation_step/errors.rs", "PreparationError"),
-        ("catchable_error_variants", "air/src/execution_step/errors/catchable_errors.rs", "CatchableError"),
-        ("uncatchable_error_variants", "air/src/execution_step/errors/uncatchable_errors.rs", "UncatchableError"),
-        ("farewell_error_variants", "air/src/farewell_step/errors.rs", "FarewellError"),
+    def _section_1(w):
+        enums = [
+            ("preparation_error_variants", "air/src/preparation_step/errors.rs", "PreparationError"),
+            ("catchable_error_variants", "air/src/execution_step/errors/catchable_errors.rs", "CatchableError"),
+            ("uncatchable_error_variants", "air/src/execution_step/errors/uncatchable_errors.rs", "UncatchableError"),
+            ("farewell_error_variants", "air/src/farewell_step/errors.rs", "FarewellError"),
+        ]
+        for cname, rel, en in enums:
+            vs = enum_variants(rel, en)
+            w(f"Definition {cname} : list string := {coq_list([coq_str(v) for v in vs])}.")
+        for cname, rname in [("preparation_error_start_id", "PREPARATION_ERROR_START_ID"),
+                             ("catchable_errors_start_id", "CATCHABLE_ERRORS_START_ID"),
+                             ("uncatchable_errors_start_id", "UNCATCHABLE_ERRORS_START_ID"),
+                             ("farewell_errors_start_id", "FAREWELL_ERRORS_START_ID")]:
+            w(f"Definition {cname} : Z := {const_int('air/src/utils/error_codes.rs', rname)}%Z.")
+        w("")
+    _guarded('core: error tables', _section_1, out)
+    consts = [
+        ("stream_max_size", "N", "air/src/execution_step/value_types/stream/stream_definition.rs", "STREAM_MAX_SIZE"),
+        ("generation_stub", "N", "crates/air-lib/interpreter-data/src/generation_idx.rs", "GENERATION_STUB"),
+        ("json_codec", "N", "crates/air-lib/interpreter-cid/src/lib.rs", "JSON_CODEC"),
+        ("default_indent_step", "N", "crates/beautifier/src/beautifier.rs", "DEFAULT_INDENT_STEP"),
+        ("call_service_success", "Z", "crates/air-lib/interpreter-interface/src/call_service_result.rs", "CALL_SERVICE_SUCCESS"),
     ]
-    for cname, rel, en in enums:
-        vs = enum_variants(rel, en)
-        w(f"Definition {cname} : list string := {coq_list([coq_str(v) for v in vs])}.")
-    for cname, rname in [("preparation_error_start_id", "PREPARATION_ERROR_START_ID"),
-                         ("catchable_errors_start_id", "CATCHABLE_ERRORS_START_ID"),
-                         ("uncatchable_errors_start_id", "UNCATCHABLE_ERRORS_START_ID"),
-                         ("farewell_errors_start_id", "FAREWELL_ERRORS_START_ID")]:
-        w(f"Definition {cname} : Z := {const_int('air/src/utils/error_codes.rs', rname)}%Z.")
-    w("")
-    # 2. constants
-    w(f"Definition stream_max_size : N := {const_int('air/src/execution_step/value_types/stream/stream_definition.rs', 'STREAM_MAX_SIZE')}%N.")
-    w(f"Definition generation_stub : N := {const_int('crates/air-lib/interpreter-data/src/generation_idx.rs', 'GENERATION_STUB')}%N.")
-    w(f"Definition json_codec : N := {const_int('crates/air-lib/interpreter-cid/src/lib.rs', 'JSON_CODEC')}%N.")
-    w(f"Definition default_indent_step : N := {const_int('crates/beautifier/src/beautifier.rs', 'DEFAULT_INDENT_STEP')}%N.")
-    w(f"Definition call_service_success : Z := {const_int('crates/air-lib/interpreter-interface/src/call_service_result.rs', 'CALL_SERVICE_SUCCESS')}%Z.")
-    mv = min_version()
-    w(f"Definition min_version : N * N * N := ({mv[0]}%N, {mv[1]}%N, {mv[2]}%N).")
-    fld, op = version_check()
-    w(f"Definition version_check_field : string := {coq_str(fld)}.")
-    w(f"Definition version_check_cmp : cmp_op := {CMP[op]}.")
-    w("")
-    # 3. limits
-    entries, cr, hle, n_checks, first_default = limit_checks()
-    def ent(e):
-        return f"({coq_str(e[0])}, {CMP[e[1]]}, {coq_str(e[2])}, {coq_str(e[3])}, {coq_str(e[4])})"
-    w(f"Definition early_limit_checks : list (string * cmp_op * string * string * string) := {coq_list([ent(e) for e in entries])}.")
-    w(f"Definition call_result_limit_check : string * cmp_op * string * string * string := {ent(cr)}.")
-    w(f"Definition handle_limit_exceeding_is_standard : bool := {'true' if hle else 'false'}.")
-    w(f"Definition early_check_invocations : N := {n_checks}%N.")
-    w(f"Definition first_early_check_reports_default_flags : bool := {'true' if first_default else 'false'}.")
-    sites = limit_use_sites()
-    w(f"Definition limit_use_sites : list (string * string) := {coq_list(['(' + coq_str(a) + ', ' + coq_str(b) + ')' for a, b in sites])}.")
-    w("")
+    for cname, ty, rel, rname in consts:
+        _guarded("core: constant " + rname,
+                 lambda w, cname=cname, ty=ty, rel=rel, rname=rname:
+                     w(f"Definition {cname} : {ty} := {const_int(rel, rname)}%{ty}."), out)
+    def _section_2(w):
+        mv = min_version()
+        w(f"Definition min_version : N * N * N := ({mv[0]}%N, {mv[1]}%N, {mv[2]}%N).")
+        fld, op = version_check()
+        w(f"Definition version_check_field : string := {coq_str(fld)}.")
+        w(f"Definition version_check_cmp : cmp_op := {CMP[op]}.")
+        w("")
+    _guarded('core: interpreter versions', _section_2, out)
+    def _section_3(w):
+        entries, cr, hle, n_checks, first_default = limit_checks()
+        def ent(e):
+            return f"({coq_str(e[0])}, {CMP[e[1]]}, {coq_str(e[2])}, {coq_str(e[3])}, {coq_str(e[4])})"
+        w(f"Definition early_limit_checks : list (string * cmp_op * string * string * string) := {coq_list([ent(e) for e in entries])}.")
+        w(f"Definition call_result_limit_check : string * cmp_op * string * string * string := {ent(cr)}.")
+        w(f"Definition handle_limit_exceeding_is_standard : bool := {'true' if hle else 'false'}.")
+        w(f"Definition early_check_invocations : N := {n_checks}%N.")
+        w(f"Definition first_early_check_reports_default_flags : bool := {'true' if first_default else 'false'}.")
+        sites = limit_use_sites()
+        w(f"Definition limit_use_sites : list (string * string) := {coq_list(['(' + coq_str(a) + ', ' + coq_str(b) + ')' for a, b in sites])}.")
+        w("")
+    _guarded('core: size limits', _section_3, out)
     for extra in EXTRA_GENERATORS:
-        out.extend(extra())
+        _guarded("plugin: " + extra.__module__, lambda w, extra=extra: [w(l) for l in extra()], out)
     return "\n".join(out) + "\n"
+
+
+FAILED_SECTIONS = []
+
+
+def _guarded(name, fn, out):
+    """Run one section of the translator; when the source construct it reads is not found, omit ONLY its
+    definitions (the proofs and model files that depend on them stop compiling: their obligations are
+    broken; properties that do not depend on them are not affected) and record the failure."""
+    buf = []
+    try:
+        fn(buf.append)
+    except TranslationError as e:
+        FAILED_SECTIONS.append((name, str(e)))
+        out.append("(* TRANSLATION-FAILED section %s: %s *)" % (name, str(e).replace("*)", "* )")))
+        out.append("")
+        return
+    except Exception as e:  # a plugin bug must not take the other sections down
+        FAILED_SECTIONS.append((name, "%s: %s" % (type(e).__name__, e)))
+        out.append("(* TRANSLATION-FAILED section %s: %s *)" % (name, str(e).replace("*)", "* )")))
+        out.append("")
+        return
+    out.extend(buf)
 
 
 EXTRA_GENERATORS = []
@@ -299,12 +331,25 @@ def main():
         sys.path.insert(0, here)
         for f in sorted(os.listdir(here)):
             if f.startswith("genx_") and f.endswith(".py"):
-                mod = __import__(f[:-3])
-                EXTRA_GENERATORS.append(mod.generate)
+                try:
+                    mod = __import__(f[:-3])
+                    EXTRA_GENERATORS.append(mod.generate)
+                except Exception as e:
+                    FAILED_SECTIONS.append(("plugin: " + f[:-3], "import failed: %s: %s" % (type(e).__name__, e)))
         text = generate()
     except TranslationError as e:
         print(f"TRANSLATION-FAILED: {e}")
         return 2
+    import json as _json
+    status = os.path.join(os.path.dirname(os.path.dirname(OUT)), "..", ".cache", "translator_status.json")
+    try:
+        os.makedirs(os.path.dirname(status), exist_ok=True)
+        with open(status, "w") as f:
+            _json.dump({"failed_sections": FAILED_SECTIONS}, f)
+    except OSError:
+        pass
+    for name, why in FAILED_SECTIONS:
+        print(f"TRANSLATION-FAILED section {name}: {why}")
     os.makedirs(os.path.dirname(OUT), exist_ok=True)
     old = None
     if os.path.exists(OUT):
